@@ -308,6 +308,26 @@ where
         let mut stream_stopped = None;
 
         loop {
+            // Look at what is already buffered before asking the transport for more: the bytes
+            // of this varint may have arrived together with the previous one
+            let mut buf = self.stream.buf_mut();
+            if self.expected.is_none() && buf.remaining() >= 1 {
+                self.expected = Some(VarInt::encoded_size(buf.chunk()[0]));
+            }
+
+            if matches!(self.expected, Some(expected) if buf.remaining() >= expected) {
+                let reult = VarInt::decode(&mut buf).map_err(|_| {
+                    PollTypeError::InternalError(InternalConnectionError::new(
+                        Code::H3_INTERNAL_ERROR,
+                        "Unexpected end parsing varint".to_string(),
+                    ))
+                })?;
+                // The next varint (push id / session id) has its own length
+                self.expected = None;
+
+                return Poll::Ready(Ok((reult, stream_stopped)));
+            }
+
             if stream_stopped.is_some() {
                 return Poll::Ready(Err(PollTypeError::EndOfStream));
             }
@@ -331,30 +351,6 @@ where
                     Some(StreamEnd::Other)
                 }
             };
-
-            let mut buf = self.stream.buf_mut();
-            if self.expected.is_none() && buf.remaining() >= 1 {
-                self.expected = Some(VarInt::encoded_size(buf.chunk()[0]));
-            }
-
-            if let Some(expected) = self.expected {
-                if buf.remaining() < expected {
-                    continue;
-                }
-            } else {
-                continue;
-            }
-
-            let reult = VarInt::decode(&mut buf).map_err(|_| {
-                PollTypeError::InternalError(InternalConnectionError::new(
-                    Code::H3_INTERNAL_ERROR,
-                    "Unexpected end parsing varint".to_string(),
-                ))
-            })?;
-            // The next varint (push id / session id) has its own length
-            self.expected = None;
-
-            return Poll::Ready(Ok((reult, stream_stopped)));
         }
     }
 
